@@ -215,7 +215,8 @@ Section Basics.
 
   Lemma get_item_seq_ok v item r : vok v = true -> get_item_seq v item = ROk r -> vok r = true.
   Proof.
-    intros Hv. unfold get_item_seq. destruct v; try (intros X; inversion X; reflexivity); try discriminate.
+    intros Hv. unfold get_item_seq. destruct v; try (intros X; inversion X; reflexivity); try discriminate;
+      try (destruct item; intros X; inversion X; reflexivity).
     - destruct (resolve_index item _) as [[i|]|]; cbn [res_bind]; try discriminate; [|intros X; inversion X; reflexivity].
       destruct (index_usize s i) eqn:E; [|discriminate]. intros X; inversion X; subst.
       destruct safe; [|reflexivity]. cbn in *. apply index_usize_in in E.
